@@ -153,11 +153,155 @@ func (g *FG) withLocals(env Env) Env {
 					depth--
 					return v, ok
 				}
+				// x, y := helper(args): the i-th result of a small pure helper evaluated under the same facts
+				if td, has := g.tupleDefs()[o]; has {
+					depth++
+					vals, ok := evalPureCall(g.Info, td.call, ext, 2)
+					depth--
+					if ok && td.i < len(vals) {
+						return vals[td.i], true
+					}
+				}
+			}
+		}
+		if call, ok := e.(*ast.CallExpr); ok && depth < 6 {
+			depth++
+			vals, ok := evalPureCall(g.Info, call, ext, 2)
+			depth--
+			if ok && len(vals) == 1 {
+				return vals[0], true
 			}
 		}
 		return nil, false
 	}
 	return ext
+}
+
+// tupleDefs: locals defined exactly once, by a tuple assignment from a call (x, ok := f(…)).
+func (g *FG) tupleDefs() map[types.Object]struct {
+	call *ast.CallExpr
+	i    int
+} {
+	out := map[types.Object]struct {
+		call *ast.CallExpr
+		i    int
+	}{}
+	cnt := map[types.Object]int{}
+	ast.Inspect(g.F.Body(), func(n ast.Node) bool {
+		switch s := n.(type) {
+		case *ast.AssignStmt:
+			for i, l := range s.Lhs {
+				o := objOf(g.Info, l)
+				if o == nil {
+					continue
+				}
+				cnt[o]++
+				if len(s.Lhs) > 1 && len(s.Rhs) == 1 {
+					if call, ok := unparen(s.Rhs[0]).(*ast.CallExpr); ok {
+						out[o] = struct {
+							call *ast.CallExpr
+							i    int
+						}{call, i}
+					}
+				}
+			}
+		case *ast.IncDecStmt:
+			if o := objOf(g.Info, s.X); o != nil {
+				cnt[o] += 2
+			}
+		case *ast.UnaryExpr:
+			if s.Op == token.AND {
+				if o := objOf(g.Info, s.X); o != nil {
+					cnt[o] += 2
+				}
+			}
+		}
+		return true
+	})
+	for o, c := range cnt {
+		if c != 1 {
+			delete(out, o)
+		}
+	}
+	return out
+}
+
+// evalPureCall folds a call of a small pure declared function: no loops, no assignments except := of locals, no calls other than
+// to such functions; every argument folds under env; exactly one return is reachable with the parameters bound, and all its
+// results fold. Returns the result values.
+func evalPureCall(info *types.Info, call *ast.CallExpr, env Env, depth int) ([]constant.Value, bool) {
+	if depth <= 0 {
+		return nil, false
+	}
+	h := declOf(callee(info, call))
+	if h == nil || h.Body() == nil {
+		return nil, false
+	}
+	sig := h.Obj.Type().(*types.Signature)
+	if sig.Recv() != nil || sig.Variadic() || sig.Params().Len() != len(call.Args) {
+		return nil, false
+	}
+	pure := true
+	ast.Inspect(h.Body(), func(n ast.Node) bool {
+		switch s := n.(type) {
+		case *ast.ForStmt, *ast.RangeStmt, *ast.GoStmt, *ast.DeferStmt, *ast.SendStmt, *ast.FuncLit, *ast.IncDecStmt:
+			pure = false
+		case *ast.AssignStmt:
+			if s.Tok != token.DEFINE {
+				pure = false
+			}
+		case *ast.CallExpr:
+			if tv, ok := h.Info().Types[s.Fun]; ok && tv.IsType() {
+				return true
+			}
+			if declOf(callee(h.Info(), s)) == nil {
+				pure = false
+			}
+		}
+		return pure
+	})
+	if !pure {
+		return nil, false
+	}
+	bind := map[types.Object]constant.Value{}
+	for i, a := range call.Args {
+		v, ok := evalConst(info, a, env)
+		if !ok {
+			return nil, false
+		}
+		bind[sig.Params().At(i)] = v
+	}
+	hg := NewFG(h)
+	henv := func(e ast.Expr) (constant.Value, bool) {
+		if id, ok := unparen(e).(*ast.Ident); ok {
+			if v, has := bind[h.Info().Uses[id]]; has {
+				return v, true
+			}
+		}
+		return nil, false
+	}
+	seen := hg.ReachUnder(henv)
+	full := hg.withLocals(henv)
+	var ret *ast.ReturnStmt
+	n := 0
+	for x := range seen {
+		if rs, ok := x.N.(*ast.ReturnStmt); ok {
+			ret = rs
+			n++
+		}
+	}
+	if n != 1 || ret == nil || len(ret.Results) != sig.Results().Len() {
+		return nil, false
+	}
+	var out []constant.Value
+	for _, r := range ret.Results {
+		v, ok := evalConst(h.Info(), r, full)
+		if !ok {
+			return nil, false
+		}
+		out = append(out, v)
+	}
+	return out, true
 }
 
 // LocalDef returns the single plain definition of a local variable of this function (nil when it has none or several).
